@@ -40,6 +40,7 @@ class SubCheck(object):
         self.rule = rule
         self.exhaustive = exhaustive
         self.is_spec = is_spec        # case is a NetSpec (spec-level reducer applies)
+        self.machine = None           # callable(body) -> RuleBasedStateMachine subclass (stateful generation of histories)
 
 
 def _digest(case):
@@ -101,7 +102,13 @@ def _worker_inner(pid, tier, seed, w, nw, deadline):
                 except Exception:
                     pass
 
-        if sc.cases is not None:
+        if sc.machine is not None:
+            from hypothesis.stateful import run_state_machine_as_test
+            n = max(1, sc.n[tier] // nw)
+            st_ = settings(max_examples=n, database=None, deadline=None, derandomize=False, report_multiple_bugs=False,
+                           suppress_health_check=list(HealthCheck), phases=[Phase.generate], stateful_step_count=getattr(sc, "steps", 8))
+            run_state_machine_as_test(hypothesis.seed(seed * 1000 + w)(sc.machine(body)), settings=st_)
+        elif sc.cases is not None:
             cases = sc.cases(tier)
             for i, case in enumerate(cases):
                 if i % nw == w:
